@@ -14,7 +14,7 @@ class Obs(types.SimpleNamespace):
     pass
 
 
-def run_case(plan_factory, requests=(), decision="resume", *, fail_call=None, fail_status=None, re_kwargs=None, max_decisions=3,
+def run_case(plan_factory, requests=(), decision="resume", *, fail_call=None, fail_status=None, fail_attr=False, re_kwargs=None, max_decisions=3,
              followup=True, subs=None, md_kw=None, setup=None, on_docs=None, updates=()):
     """
     plan_factory(lab) -> (plan generator, devices dict)
@@ -34,9 +34,11 @@ def run_case(plan_factory, requests=(), decision="resume", *, fail_call=None, fa
         obs.devices = devices
         obs.plan_end = None
 
+        obs.thrown = []  # (message at whose yield an exception was thrown into the plan, exception, index in msgs)
+
         def recorder(gen):
             try:
-                r = yield from gen
+                r = yield from spy(gen)
             except GeneratorExit:
                 obs.plan_end = ("closed", None, lab.steps, len(lab.msgs), len(lab.docs))
                 raise
@@ -46,16 +48,37 @@ def run_case(plan_factory, requests=(), decision="resume", *, fail_call=None, fa
             obs.plan_end = ("return", r, lab.steps, len(lab.msgs), len(lab.docs))
             return r
 
+        def spy(gen):
+            # forwards everything; notes every exception the engine throws into the plan and at which message's yield
+            try:
+                m = gen.send(None)
+                while True:
+                    try:
+                        resp = yield m
+                    except GeneratorExit:
+                        gen.close()
+                        raise
+                    except BaseException as e:  # noqa
+                        obs.thrown.append((m, e, len(lab.msgs)))
+                        m = gen.throw(e)
+                        continue
+                    m = gen.send(resp)
+            except StopIteration as s:
+                return s.value
+
         from bluesky.utils import ensure_generator
 
         plan = recorder(ensure_generator(plan))
         lab.fail_call, lab.fail_status = fail_call, fail_status
+        lab.fail_as_attribute_error = fail_attr
         pending = [dict(r) for r in requests if r.get("phase", "run") == "run"]
         paused_reqs = [dict(r) for r in requests if r.get("phase") == "paused"]
         upd = [dict(u) for u in updates]
         msg_meta, doc_meta = [], []
         ncall = [0]
-        RE.msg_hook = lambda m: (lab.msgs.append(m), msg_meta.append((lab.steps, ncall[0])))
+        msg_times = []
+        msg_deferred = []
+        RE.msg_hook = lambda m: (lab.msgs.append(m), msg_meta.append((lab.steps, ncall[0])), msg_times.append(lab.clock.t), msg_deferred.append(bool(RE._deferred_pause_requested)))
         lab.docs_meta = doc_meta
         tok = RE.subscribe(lambda n, d: doc_meta.append((lab.steps, ncall[0], lab.clock.t)))
 
@@ -107,12 +130,14 @@ def run_case(plan_factory, requests=(), decision="resume", *, fail_call=None, fa
                 break
             record(decision, lab.call(getattr(RE, decision)))
         obs.state = str(RE.state)
-        obs.msgs, obs.msg_meta = list(lab.msgs), msg_meta
+        obs.msgs, obs.msg_meta, obs.msg_times, obs.msg_deferred = list(lab.msgs), msg_meta, msg_times, msg_deferred
         obs.docs, obs.doc_meta = list(lab.docs), doc_meta
         obs.trans = list(lab.trans)
         obs.trans_meta = list(lab.trans_meta)
         obs.rewinds = list(lab.rewinds)
         obs.ledger = list(lab.ledger)
+        obs.ledger_msg = list(lab.ledger_msg)
+        obs.followup_deferred = None
         obs.steps = lab.steps
         obs.tasks_unresolved = [r for r in obs.reqs if isinstance(r.get("out"), tuple) and r["out"][0] == "task"]
         for r in obs.tasks_unresolved:
@@ -128,6 +153,7 @@ def run_case(plan_factory, requests=(), decision="resume", *, fail_call=None, fa
 
             nd = len(lab.docs)
             out = lab.call(RE, [Msg("open_run"), Msg("close_run")])
+            obs.followup_deferred = RE.deferred_pause_requested
             obs.followup = dict(outcome=out[0], exc=out[1] if out[0] != "ret" else None, state=str(RE.state),
                                 docs=[n_ for n_, _ in lab.docs[nd:]], all_docs=lab.docs[nd:])
         obs.out = lab.out.getvalue()
